@@ -28,9 +28,11 @@ quick:    24^3 boundary grid x 4 constructors, all 256 greys, all palette triple
           256 indexed, all names, default, 16 WINDOWS colours, a 64^3 lattice slice
           (offset rotates with the seed), conversion histories <=3.
 thorough: all 16,777,216 RGB colours (256 shards by red channel; ascending pass fully
-          judged, descending pass re-judges the conversions) + everything of quick
-          except the lattice.
-Measured (this machine, 16 workers): quick ~8 s, thorough ~4 min.
+          judged, descending pass re-judges the conversions of the rows g = r (mod 4))
+          + everything of quick except the lattice.
+Measured: quick 11.0 M evaluations, ~70 CPU-s (46 s wall with 6 workers on a machine at
+load 85; ~6 s expected on 16 idle cores); thorough 422 M evaluations, 2079 CPU-s with 6
+workers at load >100 (29 min wall there; ~2.5 min expected on 16 idle cores).
 """
 import itertools
 import os
@@ -590,7 +592,7 @@ def oracle():
 
 
 # ------------------------------------------------------------------ parts
-def _rgb_block(colours, hows, res, sh, full_down, down_rows=None):
+def _rgb_block(colours, hows, res, sh, full_down, down_rows=None, info=False):
     """colours: list of (r, g, b) in ascending order.  Ascending pass with the systems in
     order, fully judged; descending pass with the systems reversed (every memo entry is
     met again at every age: the most recent ones still cached, the rest evicted).
@@ -604,6 +606,7 @@ def _rgb_block(colours, hows, res, sh, full_down, down_rows=None):
     down = SYSTEMS[::-1]
     n = 0
     O.part, O.case_base, O.inexact = "rgb", None, 0
+    inexact_up = 0
     fast = len(O.near) == 2 and not os.environ.get("VF_C18_NOFAST")
     if fast and not O.f_ready:
         O._fast_init()
@@ -613,6 +616,8 @@ def _rgb_block(colours, hows, res, sh, full_down, down_rows=None):
             back = [c for c in back if c[1] % down_rows[0] == down_rows[1]]
         for direction, seq, order, full in (("up", colours, up, True), ("down", back, down, full_down)):
             O.ctx = {} if direction == "up" else {"dir": "down", "shard": sh}
+            if direction == "down":
+                inexact_up = O.inexact
             for (r, g, b) in seq:
                 n += 1
                 if n & 255 == 0 and deadline_passed():
@@ -627,7 +632,9 @@ def _rgb_block(colours, hows, res, sh, full_down, down_rows=None):
                     O.check_color(("rgb", r, g, b, how), order, res, full)
     finally:
         O.ctx = {}
-        res.count("info_rgb_to_256_cube_entry_not_per_channel_nearest", O.inexact)
+        if info:
+            res.count("info_rgb_to_256_cube_entry_not_per_channel_nearest", inexact_up)
+            res.count("info_rgb_colours_counted", len(colours))
         res.count("rgb_colours", n if res.capped else len(colours))
 
 
@@ -789,10 +796,10 @@ def run_shard(sh, tier, seed):
         _part_hist(sh, res)
     elif p == "lattice":
         _rgb_block([(sh["r"], g, b) for g in range(sh["og"], 256, LATTICE) for b in range(sh["ob"], 256, LATTICE)],
-                   ("triplet",), res, sh, False)
+                   ("triplet",), res, sh, False, info=True)
     elif p == "red":
         _rgb_block([(sh["r"], g, b) for g in range(256) for b in range(256)], ("triplet",), res, sh, False,
-                   down_rows=(4, sh["r"] % 4))
+                   down_rows=(4, sh["r"] % 4), info=True)
         if sh["r"] == 200:
             res.sample({"part": "rgb", "desc": ["rgb", 200, 17, 99, "triplet"]}, limit=1)
     return res
@@ -805,8 +812,9 @@ def describe(tier, seed, res):
                  "[64^3 colours; the offset is seed mod 64, the verdict on the fixed part never depends on it]"
                  % (len(GRID), list(GRID), list(_lattice_offset(seed)), LATTICE))
     else:
-        space = ("all 16,777,216 RGB colours (256 shards by red channel), plus the %d^3 boundary grid, greys and palette "
-                 "triplets through all 4 constructors" % len(GRID))
+        space = ("all 16,777,216 RGB colours (256 shards by red channel; the descending re-judging pass walks the rows "
+                 "g = r (mod 4) of each shard), plus the %d^3 boundary grid, greys and palette triplets through all 4 "
+                 "constructors in both directions" % len(GRID))
     return {
         "rule": "RGB inputs: " + space + "; all 256 indexed colours (from_ansi, parse), all %d colour names, default "
                 "(2 constructors), 16 WINDOWS-type colours (2 constructors). Every colour x {STANDARD, EIGHT_BIT, TRUECOLOR, "
